@@ -13,7 +13,9 @@ IntMags == {<<>>, <<1>>, <<23>>, <<24>>, <<255>>, <<1,0>>, <<255,255>>, <<1,0,0>
 N63p1 == I(TRUE, <<127,255,255,255,255,255,255,254>>)     \* -2^63 + 1
 IntLabels == {I(neg, m) : neg \in BOOLEAN, m \in IntMags} \cup {N63p1, I(FALSE, <<127,255,255,255,255,255,255,254>>)}
 TextLabels == {Tx(<<>>), Tx(<<97>>), Tx(<<98>>), Tx(<<122>>), Tx(<<97,97>>), Tx(<<97,98>>), Tx(<<98,97>>), Tx(<<195,169>>), Tx(<<97, 195, 169>>),
-               Tx(As(23)), Tx(As(22) \o <<98>>), Tx(<<98>> \o As(22)), Tx(As(24)), Tx(As(255)), Tx(As(254) \o <<98>>), Tx(As(256)), Tx(As(22) \o <<195,169>>)}
+               Tx(As(23)), Tx(As(22) \o <<98>>), Tx(<<98>> \o As(22)), Tx(As(24)), Tx(As(255)), Tx(As(254) \o <<98>>), Tx(As(256)), Tx(As(22) \o <<195,169>>),
+               (* one text for every encoded length an integer label can have, and its neighbours: 1 + len in {4, 5, 6, 8, 9, 10} *)
+               Tx(As(3)), Tx(As(4)), Tx(As(5)), Tx(As(7)), Tx(As(8)), Tx(As(9))}
 Labels == IntLabels \cup TextLabels
 
 AlgNames == {"RS1", "WalnutDSA", "RS256", "ES256K", "ECDH_ES_HKDF_256", "SHAKE128", "EdDSA", "ES256", "A128KW", "Reserved", "A128GCM",
